@@ -237,33 +237,50 @@ func checkC12(p *Program, r *Report) {
 	{
 		var bad []string
 		nApp := 0
-		instrsOf(ctor, func(b *ssa.BasicBlock, in ssa.Instruction) {
-			call, ok := in.(*ssa.Call)
-			if !ok {
-				return
-			}
-			bi, ok := call.Call.Value.(*ssa.Builtin)
-			if !ok || bi.Name() != "append" {
-				return
-			}
-			sl, ok := call.Type().Underlying().(*types.Slice)
-			if !ok {
-				return
-			}
-			if !isStringType(sl.Elem()) && !isIntType(sl.Elem()) {
-				return
-			}
-			header := loopHeaderOf(b)
-			if header == nil {
-				return
-			}
-			nApp++
-			for i := range header.Preds {
-				if header.Dominates(header.Preds[i]) && !b.Dominates(header.Preds[i]) {
-					bad = append(bad, "the append at "+p.Pos(call.Pos())+" is skipped for some items: keys that never reach the trie are routed by the branch positions of the others")
+		// the loop may live in the constructor or in a helper of package index it calls; an element may
+		// be appended or stored at its index
+		for g := range indexReach(ctor) {
+			instrsOf(g, func(b *ssa.BasicBlock, in ssa.Instruction) {
+				var elemT types.Type
+				switch x := in.(type) {
+				case *ssa.Call:
+					bi, ok := x.Call.Value.(*ssa.Builtin)
+					if !ok || bi.Name() != "append" {
+						return
+					}
+					sl, ok := x.Type().Underlying().(*types.Slice)
+					if !ok {
+						return
+					}
+					elemT = sl.Elem()
+				case *ssa.Store:
+					ia, ok := x.Addr.(*ssa.IndexAddr)
+					if !ok {
+						return
+					}
+					sl, ok := ia.X.Type().Underlying().(*types.Slice)
+					if !ok {
+						return
+					}
+					elemT = sl.Elem()
+				default:
+					return
 				}
-			}
-		})
+				if !isStringType(elemT) && !isIntType(elemT) {
+					return
+				}
+				header := loopHeaderOf(b)
+				if header == nil {
+					return
+				}
+				nApp++
+				for i := range header.Preds {
+					if header.Dominates(header.Preds[i]) && !b.Dominates(header.Preds[i]) {
+						bad = append(bad, "the element stored at "+p.Pos(in.Pos())+" is skipped for some items: keys that never reach the trie are routed by the branch positions of the others")
+					}
+				}
+			})
+		}
 		r.Check(len(bad) == 0 && nApp >= 2, "index.NewSlimIndex hands every item to the trie", p.Pos(ctor.Pos()), fmt.Sprintf("%d appends in the item loop, each on every iteration", nApp), strings.Join(dedupStrings(sortStr(bad)), "; ")+fmt.Sprintf(" (%d appends found)", nApp))
 	}
 
